@@ -96,6 +96,7 @@ impl Model for TestModel {
                 l.sleep_us = *us;
             }
             l.chain_tag = Some(chain);
+            l.consistent_faults = true;
             self.logs.lock().unwrap().push((chain, l.log.clone()));
         }
         Ok(CpuMath::new(l))
